@@ -64,6 +64,8 @@ TomlValues == [i \in DOMAIN TomlStrs |-> JMap(<< <<K1, JStr(TomlStrs[i])>>, <<K2
                     JMap(<< <<K1, JMap(<< <<K2, JMap(<< <<A, JSeq(<<JStr(A), JStr(<<98>>)>>)>> >>)>> >>)>>, <<<<116>>, JSeq(<<JMap(<< <<K1, JMap(<< <<A, Num(1)>> >>)>> >>)>>)>> >>),
                     JMap(<< <<<<116, 121, 112, 101>>, JMap(<< <<<<110, 97, 109, 101>>, JStr(A)>> >>)>>, <<K1, JMap(<< <<K2, JMap(<< <<A, Num(1)>> >>)>>, <<<<98>>, Num(2)>> >>)>>,
                             <<<<122>>, JSeq(<<JMap(<< <<K1, JMap(<< <<K2, JStr(A)>> >>)>>, <<A, Num(3)>> >>)>>)>> >>),
+                    JMap(<< <<K1, JSeq(<<JMap(<< <<<<121>>, JMap(<< <<<<122>>, Num(2)>>, <<<<119>>, Num(3)>> >>)>>, <<A, Num(1)>> >>)>>)>>,
+                            <<K2, JMap(<< <<<<121>>, JMap(<< <<<<122>>, JStr(A)>>, <<<<119>>, JMap(<< <<A, Num(1)>>, <<<<98>>, Num(2)>> >>)>> >>)>> >>)>> >>),
                     JMap(<< <<K1, Num(-17)>>, <<K2, Dec(FALSE, <<6, 0, 2>>, 21)>>, <<A, JSeq(<<JSeq(<<Num(1)>>), JSeq(<<JStr(A)>>)>>)>> >>) >>
 
 \* ---- laws of the text machines (checked per lane so that TLC works in parallel)
@@ -118,7 +120,7 @@ CaseOut(g, i) == LET f == Base(g) IN
     [] f = "props" -> [f |-> g, i |-> i, json |-> JsonEnc(PropsAsJson(PropCases[i])), text |-> PropsWrite(PropCases[i]), alt |-> <<>>]
     [] f = "xml"   -> [f |-> g, i |-> i, json |-> JsonEnc(XmlJ(g, XmlTrees[i])), text |-> XmlWrite(XmlTrees[i]), alt |-> <<>>]
     [] f = "lua"   -> [f |-> g, i |-> i, json |-> JsonEnc(LuaValues[i]), text |-> LuaWrite(LuaValues[i]), alt |-> <<>>]
-    [] f = "toml"  -> [f |-> f, i |-> i, json |-> <<>>, text |-> TomlWrite(TomlValues[i], 1), alt |-> TomlWrite(TomlValues[i], 2), alt3 |-> TomlWrite(TomlValues[i], 3)]
+    [] f = "toml"  -> [f |-> f, i |-> i, json |-> <<>>, text |-> TomlWrite(TomlValues[i], 1), alt |-> TomlWrite(TomlValues[i], 2), alt3 |-> TomlWrite(TomlValues[i], 3), alt4 |-> TomlWrite(TomlValues[i], 4)]
 
 CONSTANT Lanes
 Jobs == FlattenSeq([k \in DOMAIN Formats |-> [i \in 1..NCases(Formats[k]) |-> <<Formats[k], i>>]])
